@@ -93,3 +93,17 @@ define("C18", "Properties/C18.v", ["C18_inst.v"], [("helpers", [])],
 define("C19", "Properties/C19.v", ["C18_inst.v"], [("helpers", [])],
        "Theorems: for every key and every list of positive indices (any digits, any depth): datadesc(render key idxs) = the field's description (given the per-run unambiguity theorem on the tables), att2idx/att2name invert the rendering for keys without underscore (per-run: every grouped key), rendering is injective, int(f'{i:02d}') = i.",
        "every name generated on a corpus covering all identities + synthetic 3-digit / nested indices (about 1600 names)")
+define("C07", "Properties/C07.v", ["C15_inst.v"], [("msg", [])],
+       "Theorems: serialize gives 0xD3 + 16-bit length (top six bits zero) + payload + CRC-24Q, a well-formed frame, for every payload up to 1023 bytes; parse(serialize(m)) = m (equal object) with validation on or off; serialize(parse(f)) = f for every valid frame; CPython's bytes-literal printer and reader (modelled exactly) are inverse on every byte string, so eval(repr(m)) rebuilds the payload.",
+       "builder payloads of all identities + unknown types at boundary sizes 2,3,255,256,1022,1023; eval(repr()) run for real on the implementation",
+       ["pyrepr/pyeval are a Gallina model of CPython's bytes literal syntax, validated against Python on all 256 byte values and quote mixes"])
+define("C13", "Properties/C13.v", [], [("msg", [])],
+       "Theorems (near-definitional by design): the model is a pure function of (tables, bytes, option): running any history of operations leaves the tables unchanged and the last result equals a fresh construction. The substance is the correspondence: every result obtained on the implementation after shuffled histories, interleaved failing parses and under 8 threads with a 1 microsecond switch interval is compared with this pure function, and a deep structural hash of all tables is compared before and after. PARTIAL: thread interleavings themselves cannot be exhibited by a Gallina function.",
+       "corpus of all identities + failing payloads replayed in shuffled orders, twice, and by 8 threads; table hash before/after",
+       ["thread scheduling is the runtime's; only sampled interleavings are exercised"])
+define("C14", "Properties/C14.v", [], [("msg", [])],
+       "Theorems: after construction every assignment (any name, any value, any sequence of attempts) yields the message error and leaves the object unchanged, hence payload, identity, attributes, serialisation and MSM flag; the constructor's own writes never hit the flag (the message error arises only for too-short payloads).",
+       "every message of the corpus: assign every existing name (public, private), property names and new names with 4 value kinds; snapshot of __dict__, str(), serialize(), identity, payload, repr() before/after")
+define("C15", "Properties/C15.v", ["C15_inst.v"], [("msg", [])],
+       "Theorems: message number = first 12 payload bits, 4076 sub-type = bits 15..22, identity string as specified, rest of payload ignored; unknown numbers give a stub keeping the payload that serialises to the same frame and re-parses to the same stub; decoded DF002 / IDF002 equal the transmitted numbers for implemented types. Per run: routing reaches every table entry, MSM flag true on all 49 implemented MSM numbers and false outside 1070-1229 and for 4076 sub-types, every layout starts with the 12-bit number field.",
+       "all 4096 message numbers x 2-3 payload variants, all 256 sub-types of 4076 x 2, one payload per implemented type")
